@@ -24,6 +24,9 @@ CHECKS = {
  'C19': dict(engine='gev-c19', technique='bounded-exhaustive exploration of multi-line / multi-byte stylesheets and :host rule trees; per-output-token source-map oracle derived from the model positions',
    text='C08 selector sheets (depth <= 1 quick / 2 thorough, wrapper chains <= 1) and all value-token pairs in 7 contexts, plain and with an astral comment line in front and multi-byte class names / strings, plus four line-breaking / multi-byte fillers (\\n, /*e-acute astral*/, \\r\\n, blank + multi-line comment + newline) at every gap; C17 rule trees (8 leaf kinds, depth <= 1) under every conversion option set, on one line and one rule per line. Every output token written through the token path must have a map entry at its real UTF-16 column whose source line / column is the start of its input token (closing bracket: own or opener; sign comment: the class it marks; synthesised [wx-host] tokens: inside the :host rule prelude), rewritten tokens carry the original spelling as name, entries are sorted, and the map is identical after JSON serialisation. Replayed wrappers of the low-priority output are exempt.',
    note='Trusted: cssparser tokenizer for output token boundaries, the sourcemap crate for decoding. Sheets whose token streams disagree with the reference rewrite are left to C08 / C17 and counted as skipped.', ref='4/C19'),
+ 'C20': dict(engine='gev-c20', technique='exhaustive enumeration of file sets x insertion orders x import_group splits under enumerated hash-key answers of the environment (getrandom shim), byte-for-byte comparison',
+   text='Every non-empty subset of 5 (quick, <= 4 files) / 6 (thorough, <= 6 files) model templates with binding-map fields, slot scopes, imports / includes and inline + external scripts; every insertion order of its files, rotating script orders, every import_group bipartition in both directions; each under 64 (quick) / 768 (thorough) hash seeds, one process per seed, every HashMap instance in a process taking the next key of the seeded sequence. All artefacts (bundle, wx bundle, per-file generator object, runtime prelude, globals, script export, stringified text, dependency lists) must be one byte string per file set; three stylesheets with source maps likewise. The run measures, per file set, how many of the k! iteration orders of a probe map with the same keys the hash answers realised (all of them for k <= 4 in the quick tier).',
+   note='Trusted: the LD_PRELOAD getrandom shim owns std RandomState keys (self-checked: same seed twice gives identical runs, different seeds give different probe orders). "Every process" is covered up to the iteration orders realised, which are reported.', ref='4/C20'),
 }
 
 NOT_YET = {}
@@ -51,7 +54,7 @@ def main():
             na.append({'property_id': pid, 'reason': NOT_YET.get(pid, 'check not built yet in this session (bounded-exhaustive exploration is applicable, see DESIGN.md section 4); not claimed until its engine exists')})
     m = {
         'version': 1,
-        'setup_cmd': 'mkdir -p .work evidence && cd harness && CARGO_NET_OFFLINE=true cargo build --release --offline',
+        'setup_cmd': 'mkdir -p .work .build evidence && gcc -shared -fPIC -O2 -o .build/getrandom_shim.so harness/shim/getrandom.c && cd harness && CARGO_NET_OFFLINE=true cargo build --release --offline',
         'hooks': {
             'guard': 'cargo feature `verif_hooks` (both compiler crates)',
             'enable': 'the harness crate depends on both compilers with features=["verif_hooks"]; nothing else enables it',
